@@ -478,7 +478,9 @@ def _split_small(e, f, what):
     for k in range(MAX_SPLIT + 1):
         if e == k:
             return f(k)
-    raise Unsupported("symbolic %s above %d" % (what, MAX_SPLIT))
+    # beyond the case split: this region of the input space is cut (stated bound), the path is abandoned
+    ENG.stats["cut_large_" + what.replace(" ", "_")] = ENG.stats.get("cut_large_" + what.replace(" ", "_"), 0) + 1
+    raise Abort()
 
 
 def _as_symint(x):
